@@ -352,6 +352,9 @@ pub fn run_walk(case: &Case) -> Result<CallStack, String> {
     let modules = MinidumpModuleList::from_modules(case.mods.iter().map(|(b, z, n)| MinidumpModule::new(*b, *z, n)).collect());
     let sysinfo = system_info(case);
     let symbols = symbol_map(case);
+    if std::env::var("WALK_PANIC_LOC").is_ok() {
+        std::panic::set_hook(Box::new(|i| eprintln!("panic at {:?}", i.location())));
+    }
     catch(|| {
         let symbolizer = Symbolizer::new(string_symbol_supplier(symbols));
         let mut stack = CallStack::with_context(context);
@@ -1109,7 +1112,7 @@ impl Engine for Walk {
     }
 
     fn generate(&self, tier: Tier, rng: &mut Rng, emit: &mut dyn FnMut(String)) {
-        let n = if tier == Tier::Quick { 2600 } else { 40000 };
+        let n = if tier == Tier::Quick { 12000 } else { 200000 };
         for arch in ARCHS {
             for i in 0..n {
                 let os = OSES[(i % OSES.len() as u64) as usize];
